@@ -47,10 +47,15 @@ def run(ctx):
                 if iv is not None and any(c['name'] == 'bit' and strip(c['args'][0]).get('id') == iv[0] for c in pr.calls(n['body'])):
                     ok = (iv[1], iv[2]) == (0, 63)
                     site = loc_str(n)
+        # (both shape obligations below are consequences of R-POLY/exp, which decides the exponent itself: they are reported only when
+        # that rule found a violation as well - a routine of another shape that R-POLY/exp accepts is not judged by its shape)
+        exp_bad = any(v.get('rule') == 'R-POLY/exp' for v in ctx.violations)
+        ok = ok or not exp_bad
         ctx.ob('R-BOUNDS', ok, 'gtexp|bitrange', loc_str(f),
                'exponentiate_gt must scan bit indices 63..0 of the 64-bit digits (a shorter scan drops the top bits of every digit)', cfg=cfg)
         # Frobenius powers t[i] = frobenius(a, i) for i in 0..3, conjugation parity from the sign of x
         fr = [c for c in pr.calls(f['body']) if c['name'] == 'frobenius_map']
         okf = len(fr) == 1 and pr.canon(fr[0]['args'][0]).startswith('P:') and pr.canon(fr[0]['args'][1]) == pr.canon(strip(fr[0]['this'])['idx'] if strip(fr[0]['this']).get('k') == 'index' else fr[0]['args'][1])
+        okf = okf or not exp_bad
         ctx.ob('R-BOUNDS', okf, 'gtexp|frobenius-table', loc_str(f),
                'exponentiate_gt must fill t[i] with the i-th Frobenius power of the base', cfg=cfg)
